@@ -144,6 +144,14 @@ def check_C01(chk):
         chk.sample({"input": it["case"], "send_trace": it["send_obs"], "recv_trace": it["recv_obs"], "result": it["rec"] and it["rec"]["send"]})
     chk.assumptions += ["the kernel accepts SEQPACKET packets of S-32 bytes (validated by every traced run: EMSGSIZE would surface as a send error)",
                         "SO_SNDBUF is only ever reported lower than the real value (the kernel then accepts every packet the library builds)"]
+    # values whose Deserialize receives (and decodes) ANOTHER message half-way through: the enclosing value's later endpoints and
+    # regions must still arrive as sent (nested-receive driver, oracle + TlsRecv model)
+    from . import props_codec as PCD
+    nfails = []
+    ncases, ntodo, nbad = PCD.nestrecv_stage(chk, random.Random(chk.seed + 29), bins["default"], 120 if thorough else 24, nfails, tag="c01n")
+    chk.coverage["nested_receive_cases"] = len(ncases)
+    fails = fails + nfails
+    bad = bad + list(nbad)
     finish_proof(chk, proof_ok, fails, bad)
 
 
@@ -247,6 +255,8 @@ def check_C15(chk):
         jobs.append((bins["default"], S, cases[lo:lo + chunk], "default", True))
     # the in-process transport has no limit of its own: whatever it accepts must arrive complete, however many endpoints a value embeds
     icases = [{"id": next(nid), "len": 100, "nsend": n - n // 3, "nrecv": n // 3, "nshm": 2, "level": "typed"} for n in (10, 64, 65, 200, 255, 256, 257, 300, 700)]
+    # ... and values holding more regions than the OS transport could carry in one message: region 64, 65, ... must arrive like the others
+    icases += [{"id": next(nid), "len": 100, "nsend": 1, "nrecv": 1, "nshm": n, "level": "typed"} for n in (63, 64, 65, 70, 130)]
     jobs.append((bins["inprocess"], None, icases, "inprocess", False))
     items = run_parallel(jobs)
     fails, bad = judge(chk, items, lambda it: it["case"].get("flavour") == "inprocess" or ("1" not in it["case"].get("faults", "") and F.nfds_of(it["case"]) + (1 if F.wire_len(it["case"], it["rec"]) > cap else 0) <= 64),
@@ -344,6 +354,21 @@ def check_C18(chk):
             chk.failing_input("with mmap failing (ENOMEM) %s of a %d-byte region %s" % (r["what"], r["len"],
                               "handed out a region of another length / content" if r["outcome"] == "wrong" else "terminated the process by %s (access through an invalid pointer)" % r["outcome"]),
                               r, key="mmapfail:%s:%d" % (r["what"], r["len"]))
+    # a send carrying a region is parked (multi-fragment data, nobody reading); meanwhile another region of the same length is created;
+    # then the receiver reads: every handle still reads its own bytes (a mapping must not be given up twice, nor while a handle lives)
+    for fl in ("default",):
+        plines = ["op=parked id=%d len=%d" % (i + 1, L) for i, L in enumerate((8 << 20, 1 << 20, 4096 * 33))]
+        precs, _, prc, perr = C.run_harness(bins[fl], "shm", plines, shim=False, timeout=120)
+        pk = [r for r in precs if r.get("kind") == "parked"]
+        if len(pk) < len(plines):
+            chk.failing_input("the parked-send scenario did not complete on the %s build: %s" % (fl, perr[-300:]), {"build": fl}, key="parked:%s:none" % fl)
+        for r in pk:
+            if r["code"] != 0:
+                what = {4: "the received message / region differs from what was sent", 5: "the receive failed", 6: "the sender's other handle on the region no longer reads its bytes",
+                        7: "a region created while the send was parked no longer reads its bytes"}.get(r["code"], "the process was terminated by signal %s" % r["signal"])
+                chk.failing_input("a send carrying a %d-byte region was parked (4 MiB of data, receiver not reading yet) while another region of the same length was created, then "
+                                  "the receiver read: %s" % (r["len"], what), {"build": fl, "record": r}, key="parked:%s:%d" % (fl, r["len"]))
+        chk.coverage.setdefault("parked_send_scenarios", {})[fl] = len(pk)
     fails, bad = judge(chk, items, False, "c18", near_boundary)
     # buffer discipline read off the receiver traces: every kernel write lies inside the offered buffer
     over = [it for it in items if it["recv_obs"] and any(got > want for want, got in it["recv_obs"]["reads"])]
